@@ -1,9 +1,11 @@
 pub mod c05;
 pub mod c06;
+pub mod c08;
 pub mod c10;
 pub mod c20;
 pub mod common;
 pub mod group;
+pub mod meta;
 pub mod pairs;
 pub mod state;
 
@@ -22,6 +24,10 @@ pub fn get(id: &str) -> Option<Box<dyn Monitor>> {
         "C06" => Some(Box::new(c06::C06::new())),
         "C10" => Some(Box::new(c10::C10)),
         "C20" => Some(Box::new(c20::C20)),
+        "C07" => Some(Box::new(meta::MetaMonitor { prop: "C07" })),
+        "C08" => Some(Box::new(c08::C08)),
+        "C09" => Some(Box::new(meta::MetaMonitor { prop: "C09" })),
+        "C16" => Some(Box::new(meta::MetaMonitor { prop: "C16" })),
         _ => None,
     }
 }
